@@ -691,7 +691,7 @@ class Predicate(metaclass=abc.ABCMeta):
             return cls(
                 *(
                     operator(left[k], right[k])
-                    if k in left and k in right and hash(left[k]) != hash(right[k])
+                    if k in left and k in right and not Feature.__eq__(left[k], right[k])
                     else left[k]
                     if k in left
                     else right[k]
